@@ -154,6 +154,7 @@ def run(ctx, prop=PROP):
     ctx.extra['boundary_shapes'] = dict(sorted(g.shapes.items()))
     failing = []
     K = 5      # protocol lines per program: impl, spec, specg, type, stype
+    n_session, max_session = 0, (120 if ctx.tier == 'quick' else 2500)
     for i, (code, st, env) in enumerate(progs):
         text = json.dumps(code)
         control = any(k in text for k in ('"IF', '"LOOP', '"ITER', '"MAP', '"DIP', '"EXEC'))
@@ -161,6 +162,22 @@ def run(ctx, prop=PROP):
         ctx.case({'code': code if size < 10 else f'<{size} instrs>', 'env': env}, nontrivial=control and (size >= 6 or (prop == 'C02' and ('"MAP"' in text or '"ITER"' in text))))
         real = interp_run.run_real(code, env)
         ctx.count('outcome', real[0])
+        # ---- the same program as a later cell of a REPL session (Interpreter.execute): earlier cells — failing ones are rolled back,
+        # also when they fail under a protected stack prefix — must not change what it computes (text goes through format + parse)
+        if real[0] == 'ok' and i % 7 == 3 and n_session < max_session and size <= 40 and prop == 'C01':
+            n_session += 1
+            prelude = interp_run.PRELUDES[n_session % len(interp_run.PRELUDES)]
+            try:
+                sess = interp_run.run_session(code, env, prelude)
+            except Exception as e:      # e.g. a value the text printer cannot render: not this stream's business
+                sess = None
+                ctx.count('session-stream', f'skipped:{type(e).__name__}')
+            if sess is not None:
+                ctx.count('session-stream', 'after:' + prelude[0].split(' ; ')[-1][:24])
+                if sess != real:
+                    ctx.violation('session-history:' + prelude[0][:60],
+                                  f'after the REPL cell(s) {prelude} the program {mich.to_line(code)[:200]} gives {str(sess)[:200]}; on a fresh stack {str(real)[:200]}',
+                                  {'code': code, 'env': env, 'prelude': prelude, 'in_session': sess, 'fresh': real})
         for prim in sorted(instrs_in(code)):      # number of programs each instruction form occurs in
             ctx.count('programs-with-instruction', prim)
         for kt in map_key_kinds(code):
